@@ -1665,6 +1665,11 @@ def check_cases(run, cases, record=True):
                 run.mismatch(case, model[k], flat_impl(res))
 
 
+# mapped basins of unverified kinds without basinmap feature: only on a
+# tree with the fix C14-basinmap-lookup-reentrant
+NO_BASINMAP_FILE_ONLY = True
+
+
 def run(run):
     cases = load_corpus()
     run.count("corpus", len(cases))
@@ -1691,7 +1696,11 @@ def run(run):
             for f in c["files"]:
                 f.pop("dcor", None)
                 for b in f["basins"]:
-                    if b["kind"] in ("http", "s3", "dcor"):
+                    # basins verified when the definitions are retrieved
+                    # (for the unverified kinds see corpus seed 16 and fix
+                    # C14-basinmap-lookup-reentrant)
+                    if b["kind"] != "internal" and (
+                            b["kind"] != "file" or NO_BASINMAP_FILE_ONLY):
                         b["kind"] = "file"
                         b["locs"] = [lc for lc in b["locs"]][:2]
                         b.pop("nokey", None)
